@@ -19,6 +19,27 @@ import (
 	"github.com/inspirer/textmapper/parsers/tm"
 )
 
+// c29StopCtx: a context whose Err() is a sentinel of the harness.
+type c29StopCtx struct {
+	context.Context
+	done chan struct{}
+	err  error
+}
+
+func (c *c29StopCtx) Done() <-chan struct{} { return c.done }
+func (c *c29StopCtx) Err() error {
+	if c.err != nil {
+		return c.err
+	}
+	return c.Context.Err()
+}
+
+type c29StopErr struct{}
+
+func (c29StopErr) Error() string { return "ctxstop" }
+
+var errC29Stop error = c29StopErr{}
+
 type c29sOut struct {
 	evs      []c20Ev
 	err      string
@@ -68,8 +89,16 @@ func c29sRunAfter(parser, prev string, prevCancelAt int, src string, cancelAt in
 			testP.Init(func(nt tmtest.NodeType, flags tmtest.NodeFlags, off, end int) { ev(int(nt), off, end) })
 		}
 		for i, text := range texts {
-			var ctx context.Context
-			ctx, cancel = context.WithCancel(ctx0)
+			// a context of our own: its error is not context.Canceled, so "the context's error" has to
+			// come from ctx.Err()
+			sc := &c29StopCtx{Context: ctx0, done: make(chan struct{})}
+			var ctx context.Context = sc
+			cancel = func() {
+				if sc.err == nil {
+					sc.err = errC29Stop
+					close(sc.done)
+				}
+			}
 			n, at = 0, cancels[i]
 			record = i == len(texts)-1
 			var err error
@@ -260,7 +289,11 @@ func c29sCompare(c *Ctx, parser, src string, k int, ref c29sOut, ends []int) {
 		c.Violate(fmt.Sprintf("cancelled run panicked or hung (panic=%q timeout=%v)", out.panicVal, out.timeout), desc)
 		return
 	}
-	cancelled := out.err == context.Canceled.Error()
+	cancelled := out.err == errC29Stop.Error()
+	if out.err == context.Canceled.Error() || out.err == context.DeadlineExceeded.Error() {
+		c.Violate(fmt.Sprintf("the parser returned %q, which is not the error of the context it was given (ctx.Err() is %q)", out.err, errC29Stop.Error()), desc)
+		return
+	}
 	if cancelled {
 		c.Count("shipped " + parser + ": cancelled")
 	} else {
